@@ -1,13 +1,19 @@
 import Dmn.Lemmas.PlaneOrient
 import Dmn.Lemmas.PlaneNoPanic
 import Dmn.Lemmas.PlaneMerged
+import Dmn.Lemmas.CanvasPlane
+import Dmn.Lemmas.CanvasContent
 
 /-!
 # C19 — a decision table drawn as text is recognised exactly as drawn
 
-Theorems about `Dmn.Recog` (model of the plane-level half of `/repo/recognizer`:
-`plane.rs`, `recognizer.rs`, `builder.rs`, `rect.rs`).  The scanner (`canvas.rs`) is not
-modelled; the correspondence `harness/src/c19.rs` ties `planeOf` / `draw` to it.  That is the
+Theorems about `Dmn.Recog`: the model of the plane-level half of `/repo/recognizer`
+(`plane.rs`, `recognizer.rs`, `builder.rs`, `rect.rs`; Model/Plane.lean) and the model of the
+scanner (`canvas.rs`, `point.rs`; Model/Canvas.lean).  Proved: the plane-level round trip for
+all well-formed tables, and panic freedom of the whole pipeline text → table on every text.
+The text-level round trip is proved relative to one decidable obligation about the scanner
+(`scanInvertsDraw`: the scanner reads `draw t` back as `planeOf t`), which is checked by the
+correspondence `harness/src/c19.rs` and by evaluation, not proved for all tables.  That is the
 stated gap of this property (level: partial).
 
 The theorems are stated at full strength for the code after the repairs of the findings
@@ -368,6 +374,140 @@ example :
 correspondence evaluates `scannerShape` on every plane the real scanner produces) -/
 example : (planeOf (sampleDecor true) (sampleTable .ruleAsRow)).scannerShape = true ∧
     (planeOf (sampleDecor false) (sampleTable .ruleAsColumn)).scannerShape = true := by
+  decide +kernel
+
+/-! ## The scanner (canvas.rs): no panic on any text -/
+
+/-- **The scanner never panics.** For EVERY text, the scanner (`canvas::scan` followed by
+`Canvas::plane`: lines → layered canvas → information item name, crossings, body rectangle →
+thin / body / grid layers → regions → plane of cells) returns a plane or an error; none of its
+index accesses `content[y][x]`, slices `[a..b]`, subtractions `len() - 1` / `bottom - 1` and
+none of the `plane.content[row]` accesses of the plane construction is reachable out of range. -/
+theorem canvas_no_panic (text : Text) : (scanText text).isPanic = false :=
+  (SNP_iff_isPanic _).mp (SNP_scanText text)
+
+/-- **Text to table: no panic.** For EVERY text, the whole recogniser (`dmntk_recognizer::build`:
+scanner, then the plane logic) returns a table or an error, never a panic — `canvas_no_panic`
+composed with `plane_no_panic`. -/
+theorem recognize_text_no_panic (text : Text) : (recognizeText text).isPanic = false := by
+  unfold recognizeText
+  have h1 := canvas_no_panic text
+  cases hs : scanText text with
+  | ok s =>
+    have h2 := plane_no_panic s.toPlane
+    simp only
+    cases hp : recognizePlane s.toPlane with
+    | ok t => rfl
+    | error e => rfl
+    | panic p => rw [hp] at h2; cases h2
+  | error e => rfl
+  | panic s => rw [hs] at h1; cases h1
+
+/-! ## Text-level round trip (partial: reduced to one obligation about the scanner) -/
+
+/-
+FULL STATEMENT (not proved; what is missing is exactly `scan_inverts_draw`):
+
+  theorem scan_inverts_draw (d : Decor) (L : Layout) (t : TableSpec) (hwf : t.wf = true)
+      (hd : d.Ok t) (hfit : Fits d L t) : scanInvertsDraw d L t = true
+
+  theorem recognize_text_roundtrip (d : Decor) (L : Layout) (t : TableSpec) (hwf : t.wf = true)
+      (hd : d.Ok t) (hfit : Fits d L t) : recognizeText (drawText d L t) = .ok t
+
+where `Fits d L t` says that the drawing is a legal one: every column width and row height of
+`L` is at least 1 and `L.colW` / `L.rowH` cover the grid, every text fills the interior of its
+region exactly (as `autoLayout` makes them), no text contains a box-drawing character, `░`, or
+a line break other than the row separators, no line of the drawing begins or ends with white
+space, and the right edge of the information item box meets the top border of the body at a
+single-line position.  `scan_inverts_draw` is the geometric statement that the four layers the
+scanner computes from `render (sheetOf d L t)` have one region per `Key` of the sheet, found in
+row-major order, and one grid rectangle per grid cell, and that `text_from_rect` cuts each
+padded text back out.  It is checked (not proved): by `decide +kernel` on the sample tables
+below, by the correspondence on every generated drawing (the driver evaluates
+`scanInvertsDraw` for each, `harness/src/c19.rs` family `scanner`), and the real scanner is
+compared with the scanner model on every text.  `recognize_text_roundtrip_partial` proves the
+rest: given that one obligation, the text-level round trip holds for tables of any size.
+Of `scan_inverts_draw` itself the first stage is proved for every drawing
+(`canvas_content_of_drawing`: text → canvas content loses nothing); the stages from the text
+layer to the plane (crossings, body rectangle, thin / body / grid layers, regions, cells) are
+the part that is modelled, panic-free and tested, but whose inversion is not proved.
+-/
+
+/-- **Text-level round trip, given that the scanner reads the drawing back.**  For every
+well-formed table (any size, both orientations, every hit policy and combination of optional
+parts, merged input entries or not) and every layout: if the scanner model reads the drawing as
+the plane it denotes (`scanInvertsDraw`, a decidable property of the drawing), then recognising
+the *text* of the drawing returns exactly the table. -/
+theorem recognize_text_roundtrip_partial (d : Decor) (L : Layout) (t : TableSpec)
+    (hwf : t.wf = true) (hd : d.Ok t) (hscan : scanInvertsDraw d L t = true) :
+    recognizeText (drawText d L t) = .ok t := by
+  unfold scanInvertsDraw at hscan
+  unfold recognizeText
+  cases hs : scanText (drawText d L t) with
+  | ok s =>
+    rw [hs] at hscan
+    have hp : s.toPlane = planeDrawn d t := by simpa using hscan
+    simp only [hp]
+    have hr : recognizePlane (planeDrawn d t) = ok t := by
+      unfold planeDrawn
+      split
+      · exact recognize_plane_roundtrip_merged d t hwf hd
+      · exact recognize_plane_roundtrip d t hwf hd
+    rw [hr]
+  | error e => rw [hs] at hscan; cases hscan
+  | panic p => rw [hs] at hscan; cases hscan
+
+/-- the layout `autoLayout` computes for a table with logical texts -/
+def laidOut (d : Decor) (t : TableSpec) : Decor × TableSpec × Layout := autoLayout d t ⟨[], [], 1, 7⟩
+
+/-- a small table with an information item name and an annotation -/
+def tinyNamed (o : Orientation) : TableSpec :=
+  { orientation := o, hitPolicy := .unique, infoName := some "nm".toList,
+    inputs := [⟨" age ".toList, none⟩], outputs := [⟨none, none⟩], label := some " out ".toList,
+    annotations := ["why".toList], rules := [⟨[" - ".toList], [" 1 ".toList], ["x".toList]⟩] }
+
+/-- non-vacuity: the hypothesis holds for the drawings of the small table in both orientations
+(information item box, hit policy, rule number, double lines towards output and annotation), so
+the text of each drawing is recognised as the table.  (The same is evaluated by the
+correspondence for every generated table.) -/
+example :
+    let l := laidOut tinyDecor (tinyNamed .ruleAsRow)
+    l.2.1.wf = true ∧ scanInvertsDraw l.1 l.2.2 l.2.1 = true ∧
+      recognizeText (drawText l.1 l.2.2 l.2.1) = .ok l.2.1 := by
+  decide +kernel
+
+example :
+    let l := laidOut tinyDecor (tinyNamed .ruleAsColumn)
+    l.2.1.wf = true ∧ scanInvertsDraw l.1 l.2.2 l.2.1 = true ∧
+      recognizeText (drawText l.1 l.2.2 l.2.1) = .ok l.2.1 := by
+  decide +kernel
+
+/-- **First stage of the round trip (proved for every drawing).**  The canvas content the
+scanner builds from the text of a drawing — any non-empty lines without white space at either
+end, the first beginning with `┌`, none but the last ending with `┘` (the lines `draw`
+produces; they may differ in length, the information item box is narrower than the body) — is
+the drawing itself in the text layer, blank in the other layers, every line completed with
+`CHAR_OUTER` to the length of the longest, followed by one row of `CHAR_OUTER`: `str::lines`,
+`trim`, the start / end detection and the padding of `scan` lose nothing. -/
+theorem canvas_content_of_drawing (lines : List Text) (h : DrawingLines lines) :
+    buildContent (textOfLines lines) =
+      .ok (((rowsOf lines).push #[]).map fun row =>
+        row ++ Array.replicate (maxLen lines - row.size) (Px.fill charOuter)) :=
+  buildContent_drawing lines h
+
+/-- non-vacuity: the lines of the drawing of the small table (with its information item box)
+are the lines of a drawing -/
+example :
+    let l := laidOut tinyDecor (tinyNamed .ruleAsRow)
+    DrawingLines (draw l.1 l.2.2 l.2.1) :=
+  ⟨by decide +kernel, by decide +kernel, by decide +kernel, by decide +kernel⟩
+
+/-- the scanner rejects what is not a drawing with an error (and `canvas_no_panic`: never with
+a panic): no corner, no double crossing, an open rectangle -/
+example :
+    scanText "no table here".toList = .error (.notFound ['┌']) ∧
+    scanText "┌─┐\n└─┘".toList = .error (.notFound ['╥']) ∧
+    scanText "".toList = .error (.notFound ['┌']) := by
   decide +kernel
 
 end Dmn.Recog
